@@ -414,6 +414,8 @@ class dir_archive(archive):
         return
     __setitem__.__doc__ = dict.__setitem__.__doc__
     def clear(self):
+        for key in self._lsdir(): # each entry goes in one step
+            self._rmdir(os.path.basename(key)[len(PREFIX):])
         rmtree(self.__state__['id'], self=False, ignore_errors=True)
         return
     clear.__doc__ = dict.clear.__doc__
@@ -530,7 +532,12 @@ class dir_archive(archive):
 
     def _rmdir(self, key):
         "remove results subdirectory corresponding to given key"
-        rmtree(self._getdir(key), self=True, ignore_errors=True)
+        _dir = self._getdir(key)
+        # move the entry aside in one step: a partly removed entry is never listed
+        _tmp = self._getdir(TEMP+hash(random(), 'md5'))
+        try: os.rename(_dir, _tmp)
+        except OSError: _tmp = _dir # no such entry (or it cannot be moved)
+        rmtree(_tmp, self=True, ignore_errors=True)
         return
     def _lsdir(self):
         "get a list of subdirectories in the root directory"
